@@ -10,3 +10,5 @@ for P in "$@"; do
   echo "  [$NAME vs $P] done"
 done
 cd /repo && git checkout -- . && git status --short | head -3
+# evidence written while a seed was applied is not evidence about the tree: restore the committed files
+git -C /verif checkout -- evidence 2>/dev/null
